@@ -67,7 +67,7 @@ static void setup(Runner &r, const Tier &t) {
     std::vector<FS> fs = { { gen_dir() + "/s_min.ttf", { "ab", "ba", "c", "abc" } }, { gen_dir() + "/s_full.ttf", { "ab", "c\xCC\x81", "de f", "a\xCC\x81\xCC\x80" } }, { font_path("small.ttf"), { "abc", "cab", "aa", "b" } } };
     if (t.thorough) fs.push_back({ font_path("Padauk.ttf"), { "\xE1\x80\x80\xE1\x80\xBB\xE1\x80\xBD\xE1\x80\x94\xE1\x80\xBA", "\xE1\x80\x99\xE1\x80\xBC\xE1\x80\x94\xE1\x80\xBA", "ab" } });
     for (auto &f : fs) for (unsigned o : { 0u, 2u, 4u, 6u }) for (int h = 0; h < 2; ++h) g_roots.push_back({ f.f, o, h == 1, f.tx });
-    r.ncases = g_roots.size() * 2; r.case_alarm_s = 1200;
+    r.ncases = g_roots.size() * 2; r.case_alarm_s = unsigned(r.deadline_s) + 600;
     r.describe = [](uint64_t i) { const Root &rt = g_roots[i / 2]; JObj o; o.kv("font", rt.font).kv("face_options", rt.opts).kv("font_kind", rt.hinted ? "advance callback (hinted)" : "gr_make_font (unhinted)")
         .kv("search", i % 2 ? "plain depth-limited enumeration without deduplication" : "BFS to fixpoint on the mutable-state key").kv("probes", "texts x dir{0,1,3} x features{default,language,modified} x {font,NULL} + face dump"); return o; };
     r.body = [](uint64_t ci, ShardCtl &ctl) {
@@ -80,6 +80,7 @@ static void setup(Runner &r, const Tier &t) {
         int maxdepth = plain ? (g_thor ? 3 : 2) : (g_thor ? 6 : 4); bool big = rt.font.find("Padauk") != std::string::npos; if (big) maxdepth = plain ? 1 : 2;
         struct Node { std::vector<int> hist; }; std::deque<Node> q; q.push_back({ {} }); std::set<std::string> seen; uint64_t states = 0, trans = 0; bool failed = false, frontier_emptied = true;
         while (!q.empty() && !failed) {
+            if (deadline_hit(ctl)) { frontier_emptied = false; break; }
             Node n = q.front(); q.pop_front(); World w; if (!make(w)) { close(w); break; }
             for (int o : n.hist) { apply(w, rt, o); ++trans; }
             std::string key = state_key(w);
